@@ -92,15 +92,16 @@ Lemma wr_fuel_exhaustion_is_reported :
   map rresult (rc_threads c) = [Some (RDone (RO OBlockRes)); Some RExhaust].
 Proof. vm_compute. reflexivity. Qed.
 
-(* 4. a 4-block poll whose third download fails (transient): two blocks are processed, the flag goes down;
-      the next poll delivers the other two; nothing twice, nothing skipped; the last known block follows *)
+(* 4. a 4-block poll whose third download fails: two blocks are processed, SpvClient keeps the tip it reached and
+      the poll still returns Ok with the announced tip (which the chain monitor persists: the window of F4);
+      the next poll delivers the other two; nothing twice, nothing skipped *)
 Definition wr_multi (polls : nat) : rconf :=
-  wr_conf wr_app polls [] [(2001, []); (2002, [7]); (2003, []); (2004, [])] 120 [] [F_ok; F_ok; F_transient].
+  wr_conf wr_app polls [] [(2001, []); (2002, [7]); (2003, []); (2004, [])] 120 [] [F_ok; F_ok; F_block_fails].
 
 Lemma wr_partial_poll :
   let c1 := rrun_config (wr_multi 1) (repeat 0%nat 400) in
   let c2 := rrun_config (wr_multi 2) (repeat 0%nat 400) in
-  delivered (rc_log c1) = [2001; 2002] /\ rc_flag c1 = false /\ rc_lkb c1 = 120%N /\
+  delivered (rc_log c1) = [2001; 2002] /\ rc_flag c1 = true /\ rc_lkb c1 = 124%N /\ rc_height c1 = 122%N /\
   delivered (rc_log c2) = [2001; 2002; 2003; 2004] /\ rc_flag c2 = true /\ rc_lkb c2 = 124%N /\ rc_pending c2 = [] /\
   find_trk (db_trks (rc_tower c2)) (7, 1) <> None.
 Proof. vm_compute. repeat split; try reflexivity. discriminate. Qed.
